@@ -198,7 +198,7 @@ fn re_take_cap(v: &Vec<Result<BracketCap, RegexErr>>, i: usize) -> (r: Result<Br
 { unimplemented!() }
 proof fn axiom_vec_len_fits_caps(v: &Vec<Result<BracketCap, RegexErr>>) ensures v@.len() <= usize::MAX { admit(); }
 //@extract sudachi/src/sentence_detector.rs :: fn parenthesis_level
-//@  rw Rlazy 1
+//@  rw Rlazy *
 //@  rw R14 1 custom
 //@  | for caps in PARENTHESIS\.captures_iter\(s\) \{
 //@  > let __cs = re_parenthesis_captures(s); let mut __ic: usize = 0; while __ic < __cs.len() { let caps = re_take_cap(&__cs, __ic); __ic += 1;
